@@ -192,6 +192,20 @@ func (h *harness) jreal(c JBytes, b []byte) (out string, oracle string) {
 			return jcanonMap(gr.VariableValues), oracle
 		}
 		return fmt.Sprintf("(env %s %s %s %s)", xhex([]byte(gr.Query)), xhex([]byte(gr.OperationName)), jcanonMap(gr.VariableValues), jcanonMap(gr.Extensions)), oracle
+	case "media":
+		body := `{"query":"J"}`
+		req := &http.Request{Method: "POST", URL: &url.URL{Path: "/graphql"}, Header: http.Header{"Content-Type": {string(b)}},
+			Body: io.NopCloser(strings.NewReader(body)), ContentLength: int64(len(body))}
+		gr, code, err := graphql.NewRequestFromHTTP(req.WithContext(context.Background()))
+		switch {
+		case err == nil && gr != nil && gr.Query == "J":
+			return "json", ""
+		case err == nil && gr != nil && gr.Query == body:
+			return "graphql", ""
+		case err != nil && code == 400 && err.Error() == "invalid content-type":
+			return "other", ""
+		}
+		return fmt.Sprintf("unexpected: code %d err %v", code, err), ""
 	case "payload":
 		if !json.Valid(b) {
 			// json-iterator only ever sees a json.RawMessage that encoding/json extracted from the
@@ -231,7 +245,7 @@ func (h *harness) jreal(c JBytes, b []byte) (out string, oracle string) {
 
 // jmodelLines: the driver lines that answer a case (ws needs two, the second depends on the first).
 func jmodelLine(c JBytes) string {
-	op := map[string]string{"post": "jpost", "map": "jmap", "payload": "jpayload", "frame": "jframe", "ws": "jframe"}[c.Op]
+	op := map[string]string{"post": "jpost", "map": "jmap", "payload": "jpayload", "frame": "jframe", "ws": "jframe", "media": "jmedia"}[c.Op]
 	return "(" + op + " x" + c.Hex + ")"
 }
 
@@ -356,7 +370,7 @@ func (h *harness) jcheckOne(c JBytes, rep string, haveModel bool, verbose bool) 
 		return h.jSameRequest(c.Kind, b)
 	}
 	real, oracle := h.jreal(c, b)
-	accepted := real != "bad" && !strings.HasPrefix(real, "(reject") && !strings.HasPrefix(real, "(close") && real != "ignore"
+	accepted := real != "bad" && real != "other" && !strings.HasPrefix(real, "(reject") && !strings.HasPrefix(real, "(close") && real != "ignore"
 	h.run.Case("jb:"+c.Op+c.Kind+c.Hex, accepted || bytes.ContainsAny(b, "{["))
 	if accepted {
 		h.run.Count("J:" + c.Op + ":accepted")
@@ -644,6 +658,10 @@ var jProbes = []string{
 	`{"query":"{a}","id":"9","type":"stop","payload":{"query":"{b}"}}`,
 }
 
+// pieces of Content-Type header values
+var jMediaTokens = []string{"application/json", "application/graphql", "APPLICATION/JSON", "Application/GraphQL", "applİcation/json", "application/Kson", "application/jsonx", "text/plain",
+	";", " ", "\t", "\u00a0", "\xa0", "\u2028", "charset", "=", "utf-8", "\"", "\\", "a", "A", "*", "*0", ",", "/", "\r", "\n", "x=1", "x=2", "X=1", "é", "\x00", "\x7f", "\"\"", "\"q;\\\"\"", "json"}
+
 var jNasty = []byte{'"', '\\', '{', '}', '[', ']', ':', ',', 0, 0x1f, 0x20, 0x7f, 0x80, 0xbf, 0xc3, 0xff, '0', '1', 'e', '-', '.', 'u', 'n', '/', '\n', 'N', 0xef}
 
 func jCorrupt(r *hx.Rand, s []byte) []byte {
@@ -749,6 +767,44 @@ func (h *harness) phaseJ() {
 		all([]byte(`{"variables":{"a":` + jDeep("[", "]", d, "") + `}}`))
 		all([]byte(jDeep(`{"a":`, "}", d, "1")))
 		add("frame", []byte(`{"type":"start","payload":`+jDeep("[", "]", d, "")+`}`))
+	}
+	flush()
+	// J-m: Content-Type header values: every sequence of up to 3 (thorough 4) pieces, random longer ones
+	var medRec func(prefix string, left int)
+	medRec = func(prefix string, left int) {
+		add("media", []byte(prefix))
+		if left == 0 {
+			return
+		}
+		for _, t := range jMediaTokens {
+			medRec(prefix+t, left-1)
+		}
+	}
+	medRec("", 3)
+	for i := 0; i < run.Scale(4000, 200000); i++ {
+		r := run.Rand.Fork()
+		var sb strings.Builder
+		for n := 2 + r.Intn(9); n > 0; n-- {
+			sb.WriteString(jMediaTokens[r.Intn(len(jMediaTokens))])
+		}
+		add("media", []byte(sb.String()))
+		if r.Intn(3) == 0 {
+			add("media", jCorrupt(r, []byte(sb.String())))
+		}
+		// structured: a media type, then parameters (duplicates, continuations, quoted values, junk)
+		sp := func() string { return []string{"", "", " ", "\t", "\u00a0", "\u2028 ", "\r\n"}[r.Intn(7)] }
+		m := sp() + []string{"application/json", "application/graphql", "APPLICATION/JSON", "Application/Graphql", "applİcation/json", "application/json", "application/jso", "application /json", "application/json/x"}[r.Intn(9)] + sp()
+		for n := r.Intn(4); n > 0; n-- {
+			name := []string{"charset", "Charset", "x", "X", "a*0", "a*1", "a*", "A*0", "", "é", "x y"}[r.Intn(11)]
+			val := []string{"utf-8", "1", "2", "1", `"q"`, `""`, `"a\"b"`, `"a\qb"`, `"open`, "", "a/b", "\"x\ny\"", "é"}[r.Intn(13)]
+			eq := []string{"=", "=", "=", " = ", "", ":"}[r.Intn(6)]
+			m += ";" + sp() + name + eq + val + sp()
+		}
+		m += []string{"", "", "", ";", "; ", ";;", " ;\t", ",", ";x"}[r.Intn(9)]
+		add("media", []byte(m))
+		if r.Intn(4) == 0 {
+			add("media", jCorrupt(r, []byte(m)))
+		}
 	}
 	flush()
 	// J-b: grammar-generated envelopes and frames; J-c: single-byte corruptions of them
